@@ -834,13 +834,19 @@ class spawn(SpawnBase):
         else:
             log_read = log_send = lambda b: b
 
-        while self.isalive():
-            if self.use_poll:
-                r = poll_ignore_interrupts([self.child_fd, self.STDIN_FILENO])
+        while True:
+            if self.isalive():
+                fds, timeout = [self.child_fd, self.STDIN_FILENO], None
             else:
-                r, w, e = select_ignore_interrupts(
-                    [self.child_fd, self.STDIN_FILENO], [], []
-                )
+                # the child is gone: copy what it had already written, do
+                # not wait for more (and do not eat the user's keystrokes)
+                fds, timeout = [self.child_fd], 0
+            if self.use_poll:
+                r = poll_ignore_interrupts(fds, timeout)
+            else:
+                r, w, e = select_ignore_interrupts(fds, [], [], timeout)
+            if not r:
+                break
             if self.child_fd in r:
                 try:
                     data = self.__interact_read(self.child_fd)
